@@ -10,9 +10,11 @@ modification names; the two sort keys and the merge of the two queues; creation 
 (`PTM_atom` nodes: key `max + 1`, attributes of the modification node, cached highest key
 invalidated) versus overlay on an existing particle (found among the particles the mapped atoms
 already contribute to, by atom name); weights (`d[a][b] = w`, later assignment wins), edges,
-interactions (`add_or_replace_interaction`), references.  Not modelled: `replace` attributes and
-the `modifications` list of the particles, `log_entries`, citations, the "interaction set by
-multiple modification mappings" warning.  When several candidate particles carry the wanted atom
+interactions (`add_or_replace_interaction`), references, the `replace` dictionary of an overlaid
+node as far as it touches atomname / resid / charge_group (they decide later overlays and the
+offsets of later merges).  The other attributes, the `modifications` lists, the "interaction set
+by multiple modification mappings" warning and the removal of particles whose atomname is None are
+in `C01_Attr.lean`.  Not modelled: citations.  When several candidate particles carry the wanted atom
 name the code takes the first of a Python set; the model takes the lowest key (inputs are
 generated with a unique candidate).
 -/
@@ -62,11 +64,30 @@ def uncoveredGroups (known : List (List String)) (groups : List (List String)) :
 
 /-! ### `apply_mod_mapping` -/
 
+/-- the part of a `replace` dictionary that touches the attributes the particle table carries
+(`atomname`, `resid`, `charge_group`): `none` = key not in the dictionary, `some v` = set to `v`
+(`some none` = set to `None`, e.g. `"replace": {"atomname": null}`) -/
+structure Repl where
+  name : Option (Option String) := none
+  resid : Option (Option Int) := none
+  cg : Option (Option Int) := none
+  deriving Repr, DecidableEq, Inhabited
+
+/-- `node.update(replace)` on the particle-table attributes -/
+def Repl.apply (r : Repl) (a : Attrs) : Attrs :=
+  { a with name := r.name.getD a.name, resid := r.resid.getD a.resid, cg := r.cg.getD a.cg }
+
+/-- `graph_out.nodes[k].update(...)`: attributes of node `k` changed in place (order and keys kept) -/
+def updNode (nodes : List (Int × Attrs)) (k : Int) (f : Attrs → Attrs) : List (Int × Attrs) :=
+  nodes.map (fun p => if p.1 = k then (p.1, f p.2) else p)
+
 structure ModNode where
   key : Int
   attrs : Attrs
   /-- `PTM_atom` is true: the particle does not exist yet -/
   isNew : Bool
+  /-- `modification.nodes[idx].get('replace', {})`, applied to the particle the node is laid over -/
+  repl : Repl := {}
   deriving Repr, DecidableEq, Inhabited
 
 structure ModPlacement where
@@ -128,7 +149,7 @@ def placeModNodes (st : St) (p : ModPlacement) : List ModNode → Mol → List (
       if (p.atomsOf n.key).isEmpty then none else
       match overlayTarget { st with out := out } p n with
       | none => none
-      | some k => placeModNodes st p ns out (m2o ++ [(n.key, k)])
+      | some k => placeModNodes st p ns { out with nodes := updNode out.nodes k n.repl.apply } (m2o ++ [(n.key, k)])
 
 def modEntries (m2o : List (Int × Int)) (mtm : Dict2) : Option (List (Int × Int × Rat)) :=
   (mtm.flatMap (fun aw => aw.2.map (fun bw => (aw.1, bw.1, bw.2)))).mapM
